@@ -191,17 +191,87 @@ class Unit:
 DIRECTIVE_RE = re.compile(r'^[ \t]*//@(body|item|include)\b[ \t]*(.*)$', re.M)
 
 
-def load_template(path, seen=None):
-    seen = seen or set()
-    if path in seen:
-        raise ToolLimit('recursive include ' + path)
-    seen.add(path)
-    t = open(path).read()
+def to_import(text):
+    """turn a template into an *import*: every pasted function becomes an `external_body` declaration that keeps
+    its signature and contract (so a client unit is verified against the contracts proved in the other unit, never
+    against the bodies); //@prop tags are dropped (the obligations belong to the exporting unit)."""
+    lines = text.split('\n')
+    out = []
+    i = 0
+    while i < len(lines):
+        s_ = lines[i].strip()
+        if s_.startswith('//@prop'):
+            i += 1
+            continue
+        if s_.startswith('//@body'):
+            spec = [p.strip() for p in s_[len('//@body'):].split('::')]
+            fn_name = spec[-1].split()[-1]
+            if fn_name == 'minimum_packet_size':
+                # const-evaluated by rustc in `const` initialisers of client code: keep the real one-line body
+                out.append(lines[i])
+                i += 1
+                continue
+            sofar = '\n'.join(out)
+            pos, _hdr = template_sig_before(sofar, fn_name)
+            # start of the line holding the signature
+            ls = sofar.rfind('\n', 0, pos) + 1
+            sofar = sofar[:ls] + '#[verifier::external_body]\n' + sofar[ls:]
+            out = sofar.split('\n')
+            out.append('{ unimplemented!() }')
+            i += 1
+            while i < len(lines) and lines[i].strip().startswith('//@+'):
+                if '<<<' in lines[i] and '>>>' not in lines[i]:
+                    i += 1
+                    while i < len(lines) and '>>>' not in lines[i]:
+                        i += 1
+                i += 1
+            continue
+        out.append(lines[i])
+        i += 1
+    return '\n'.join(out)
+
+
+def strip_file_wrapper(text):
+    """keep what is between `verus! {` and `} // verus!`"""
+    a = text.index('verus! {') + len('verus! {')
+    b = text.rindex('} // verus!')
+    return text[a:b]
+
+
+def run_generator(gen):
+    env = dict(os.environ, VERIF_REPO=REPO)
+    p = subprocess.run([sys.executable, gen], stdout=subprocess.PIPE, stderr=subprocess.PIPE, text=True, env=env)
+    if p.returncode != 0:
+        if 'LostAnchor' in p.stderr:
+            raise LostAnchor('template generator %s: %s' % (os.path.basename(gen), p.stderr.strip().split('\n')[-1]))
+        raise ToolLimit('template generator %s failed: %s' % (os.path.basename(gen), p.stderr[-800:]))
+    return p.stdout
+
+
+def load_template(path, seen=None, text=None):
+    """textual expansion of //@include (once per generated file) and //@import directives"""
+    seen = seen if seen is not None else set()
+    t = text if text is not None else open(path).read()
+    base = os.path.dirname(path)
 
     def inc(m):
-        p = os.path.join(os.path.dirname(path), m.group(1).strip())
+        p = os.path.normpath(os.path.join(base, m.group(1).strip()))
+        if p in seen:
+            return '// (already included: %s)' % os.path.basename(p)
+        seen.add(p)
         return load_template(p, seen)
-    return re.sub(r'^[ \t]*//@include[ \t]+(\S+)[ \t]*$', inc, t, flags=re.M)
+
+    def imp(m):
+        p = os.path.normpath(os.path.join(base, m.group(1).strip()))
+        gen = p + '.py'
+        raw = run_generator(gen) if os.path.exists(gen) else open(p).read()
+        body = strip_file_wrapper(raw)
+        body = load_template(p, seen, body)      # resolves its includes against the shared `seen` set
+        return '// ===== imported contracts of %s (bodies NOT re-verified here) =====\n' % os.path.basename(p) + to_import(body)
+
+    t = re.sub(r'^[ \t]*//@include[ \t]+(\S+)[ \t]*$', inc, t, flags=re.M)
+    t = re.sub(r'^[ \t]*//@import[ \t]+(\S+)[ \t]*$', imp, t, flags=re.M)
+    return t
 
 
 def parse_opts(lines):
@@ -464,16 +534,11 @@ def expand(unit):
     log_items = []
     gen = unit.tpl + '.py'
     if os.path.exists(gen):
-        env = dict(os.environ, VERIF_REPO=REPO)
-        p = subprocess.run([sys.executable, gen], stdout=subprocess.PIPE, stderr=subprocess.PIPE, text=True, env=env)
-        if p.returncode != 0:
-            if 'LostAnchor' in p.stderr:
-                raise LostAnchor('template generator %s: %s' % (os.path.basename(gen), p.stderr.strip().split('\n')[-1]))
-            raise ToolLimit('template generator %s failed: %s' % (os.path.basename(gen), p.stderr[-800:]))
+        raw = run_generator(gen)
         os.makedirs(BUILD, exist_ok=True)
         gp = os.path.join(BUILD, unit.name + '.vtpl')
-        open(gp, 'w').write(p.stdout)
-        t = load_template(gp)
+        open(gp, 'w').write(raw)
+        t = load_template(unit.tpl, None, raw)
     else:
         t = load_template(unit.tpl)
     lines = t.split('\n')
